@@ -44,6 +44,4 @@ def _(self, data: Tup(Bytes, Nat), encoded: ByteArray, values: Opt(Val)):
     ensures(len(encoded) >= len(old(encoded)) + len(self.tag) + 2)
     ensures(bits_content_ok(list(encoded[len(encoded) - 1 - (data[1] + 7) // 8:]), list(data[0]), data[1]))
     ensures(list(encoded[:len(old(encoded))]) == list(old(encoded))
-            and list(encoded[len(old(encoded)):len(old(encoded)) + len(self.tag)]) == list(self.tag)
-            and is_der_length(list(encoded[len(old(encoded)) + len(self.tag):len(encoded) - 1 - (data[1] + 7) // 8]),
-                              1 + (data[1] + 7) // 8))
+            and list(encoded[len(old(encoded)):len(old(encoded)) + len(self.tag)]) == list(self.tag))
